@@ -3,6 +3,7 @@
 //! and prints one observation line per effect on stdout.
 mod chansched;
 mod core;
+mod execsched;
 mod pingsched;
 mod runsched;
 mod sched;
@@ -19,6 +20,7 @@ fn main() {
         "pingsched" => pingsched::run(),
         "chansched" => chansched::run(),
         "sig" => sig::run(),
+        "execsched" => execsched::run(),
         "runsched" => runsched::run(),
         "timing" => timing::run(),
         "core" => core::run(&args[2..]),
